@@ -31,16 +31,28 @@ def parsePage3 (n st f : String) : Option (Nat × Option PState × List Char) :=
   | some n, some st => some (n, st, if f == "-" then [] else f.toList)
   | _, _ => none
 
+/-- an optional page annotation: `m` (metadata change) or `B<n>` (size of the page's RESULT body in bytes,
+at most 16 MiB - a dimension of the harness only: the page loop does not look at sizes) -/
+def annotOk (x : String) : Bool :=
+  x == "m" || (x.startsWith "B" && (match (x.drop 1).toString.toNat? with | some n => decide (n ≤ 16777216) | none => false))
+
 def parsePage (w : String) : Option (Nat × Option PState × List Char) :=
   match w.splitOn ":" with
   | [n, st, f] => parsePage3 n st f
-  | [n, st, f, "m"] => parsePage3 n st f
+  | [n, st, f, x] => if annotOk x then parsePage3 n st f else none
+  | [n, st, f, "m", y] => if y.startsWith "B" && annotOk y then parsePage3 n st f else none
   | _ => none
 
 /-- does the page token announce a metadata change (`:m`)? -/
 def pageChanges (w : String) : Bool :=
   match w.splitOn ":" with
-  | [_, _, _, "m"] => true
+  | _ :: _ :: _ :: "m" :: _ => true
+  | _ => false
+
+def pageSized (w : String) : Bool :=
+  match w.splitOn ":" with
+  | [_, _, _, x] => x.startsWith "B"
+  | [_, _, _, _, _] => true
   | _ => false
 
 /-- run-length encoding `<v>x<n>,...` of the column shape (version mod 2) of the first `m` rows -/
@@ -139,6 +151,12 @@ def implLog (impl : String) : Option (List String) :=
     if body == "-" then some [] else some (body.splitOn ",")
   | none => none
 
+/-- `kill=<m>` of the implementation's line: the number of requests the node had received when it was stopped -/
+def implKill (impl : String) : Option Nat :=
+  match (words impl).find? (·.startsWith "kill=") with
+  | some w => (w.drop 5).toString.toNat?
+  | none => none
+
 /-- number of rows in the implementation's line -/
 def implRows (impl : String) : Option Nat :=
   match (words impl).find? (·.startsWith "rows=") with
@@ -154,6 +172,7 @@ def runCore (case impl : String) : String :=
     if skip != "0" && skip != "1" && skip != "2" && skip != "3" then "bad-case" else
     let ext := skip == "2" || skip == "3"
     if !ext && pageWords.any pageChanges then "bad-case" else
+    if ext && pageWords.any pageSized then "bad-case" else
     match pageWords.mapM parsePage with
     | none => "bad-case"
     | some ps =>
@@ -169,14 +188,21 @@ def runCore (case impl : String) : String :=
         showSt s (showLog s)
       else
       let s0 := init pages (match kindOf kind with
-        | some (.cluster n idem) => ScyllaVerif.PagerExec.clusterAttempts n idem (ps.map fun p => p.2.2)
+        | some (.cluster n idem) =>
+          -- `kill<k>`: the fetches after the kill run over a plan in which the stopped node REFUSES a
+          -- connection (Exec's call-indexed targets); the request index of the kill is read off the
+          -- implementation's line (`kill=<m>`)
+          match (if cons.startsWith "kill" then implKill impl else none) with
+          | some m => ScyllaVerif.PagerExec.killedAttempts n idem (ps.map fun p => p.2.2) m
+          | none => ScyllaVerif.PagerExec.clusterAttempts n idem (ps.map fun p => p.2.2)
         | some .sess => buildSessFaults true ps
-        | some .dg => (ps.map fun p => dgAttempts false p.2.2).flatten
+        | some .dg => (ps.map fun p => dgAttempts false false p.2.2).flatten
         | _ => buildFaults ps)
       let fuel := 4 * measure s0 + 16
       if cons.startsWith "kill" && !((kind.startsWith "clu" || kind.startsWith "cls") && (cons.drop 4).toString.toNat?.isSome
           && kindOf kind != some (.cluster 1 true) && kindOf kind != some (.cluster 1 false)) then "bad-case" else
-      if cons.startsWith "kill" && !((ps.map fun p => p.2.2).flatten.all fun c => c == 'd' || c == 'R') then "bad-case" else
+      if cons.startsWith "kill" && kindOf kind != some (.cluster 2 true) && kindOf kind != some (.cluster 2 false)
+          && !((ps.map fun p => p.2.2).flatten.all fun c => c == 'd' || c == 'R') then "bad-case" else
       if cons == "eager" || cons.startsWith "kill" then
         -- a bare `next().await` loop: the consumer is polled only when woken (Model/PagerWake.lean)
         let s := (ScyllaVerif.PagerWake.runEagerW true fuel ⟨s0, true, false⟩).s
@@ -226,7 +252,10 @@ def runCore (case impl : String) : String :=
 /-- With the metadata-id extension (`skip` 2|3) the line also says which columns each delivered row was
 decoded with: `ver=` run-length encodes (version mod 2) of the first `m` entries of `rowVersions`. -/
 def run (case impl : String) : String :=
-  let core := runCore case impl
+  let core0 := runCore case impl
+  let core := match implKill impl with
+    | some m => if core0.startsWith "rows=" then core0 ++ s!" kill={m}" else core0
+    | none => core0
   match words case with
   | _ :: skip :: _ :: pageWords =>
     if (skip == "2" || skip == "3") && core.startsWith "rows=" then
